@@ -20,7 +20,7 @@ C06_QUICK = [
   X(1, [0, 0, 1, 1, 2, 2, 2], extra=[1]),         # 8 bits, one state, 7 used + 1 unused symbols
 ]
 C06_THOROUGH = C06_QUICK + [
-  X(2, [0, 1, 2], _heavy=1, _mem_gb=32, _time=2800),        # 16 bits: > 10 GB of terms
+  # X(2, [0, 1, 2]) (16 bits) is NOT included: > 10 GB of terms, and with 32 GB still undecided after 2800 s (engine cost)
   X(2, [0, 0, 2], REGMODE=1, SMAP='{1,0}'),                 # 14 bits, reversed symbol numbering, swapped state numbers
   X(3, [0, 1], _heavy=1, _mem_gb=20, _time=2500), # 15 bits, 8 macro-states: 8 x 256 profile table
   X(2, [0, 0, 2], extra=[0]),
@@ -31,8 +31,8 @@ CHECKS = {
   'level': 'model_checking',
   'explanation': 'ExplicitTreeAut::Complement() executed symbolically on every automaton A whose rules are drawn from the rule universe of the configuration, with an OnTheFlyAlphabet that holds the universe symbols plus extra registered-but-unused symbols (different registration orders / symbol numberings / state numberings per configuration, and the global alphabet as `vata cmpl` uses it). The result is decoded by iterating it; the oracle computes bottom-up ALL reachable pairs (set of A-states accepting t, set of C-states accepting t) over all trees t over the alphabet and requires that exactly one side accepts in every reachable pair (disjointness and universality of the union), that every rule of the result uses an alphabet symbol with its rank, and that the operand is unchanged.',
   'bounds': {'quick': 'A over <=3 states, ranks <=2: 2 x {a/0,f/1}, 2 x {a/0,f/1}+unused{x/0,y/1}, 2 x {a/0,b/0,f/1}, 3 x {a/0,b/0} (nullary only), 2 x {a/0,g/2}, 2 x {a/0,g/2}+unused{x/1} with sparse state numbers, 1 x {a/0,b/0,f/1,h/1,g/2,k/2,m/2}+unused{x/1}; all rule subsets and final sets (8..12 free bits per query)',
-             'thorough': 'as quick plus 2 x {a/0,f/1,g/2} (16 bits), 3 x {a/0,f/1} (15 bits), 2 x {a/0,b/0,g/2} (14 bits; with an unused nullary symbol, and with reversed symbol numbering and swapped state numbers)'},
-  'outside': 'more than 3 states (more than 2 with a binary symbol), rank > 2, more than 8 symbols, alphabets that are not OnTheFlyAlphabet (NotImplementedException by design), automata that use symbols missing from the alphabet or with a rank other than the registered one (precondition of the statement), builds with assertions enabled (-UNDEBUG)',
+             'thorough': 'as quick plus 3 x {a/0,f/1} (15 bits), 2 x {a/0,b/0,g/2} (14 bits; once with an unused nullary symbol, once with reversed symbol numbering and swapped state numbers)'},
+  'outside': 'more than 3 states (more than 2 with a binary symbol), a unary AND a binary symbol together on 2 states (16 bits: undecided by the engine within 32 GB / 2800 s), rank > 2, more than 8 symbols, alphabets that are not OnTheFlyAlphabet (NotImplementedException by design), automata that use symbols missing from the alphabet or with a rank other than the registered one (precondition of the statement), builds with assertions enabled (-UNDEBUG)',
   'assumptions': ['the state numbers of the result are below 2^|Q_A| (checked: CHECK id 2)', 'the oracle fixpoint is cut after ROUNDS rounds; convergence is itself a checked condition (CHECK id 4)'],
   'harnesses': [
     {'name': 'compl', 'src': 'harness/C06/compl.cc', 'tus': C06_TUS,
